@@ -81,9 +81,11 @@ Proof. exact update_theta_erase. Qed.
 
 (* OmegaRecord.update on a record without BLOCK (DIAGONAL(n) or plain $OMEGA / $SIGMA), any layout of
    the items (options FIX / SD / VAR in any position, parentheses, (..)xn, white space and comments):
-   when every repeat group keeps equal parameters, the SD scale round-trips on the written values
-   (fsq (fsqrt x) = x, a property of the floats at hand), no unfixed value is written as 0 and no item
-   carries both SD and VAR, the regenerated tree means exactly the new (init, fix) list. *)
+   when the SD scale round-trips on the written values (fsq (fsqrt x) = x, a property of the floats at
+   hand), no unfixed value is written as 0 and no item carries both SD and VAR, the regenerated tree
+   means exactly the new (init, fix) list.  Since commit b54b188 (finding C04-OMEGA-XN-SPLIT) this
+   holds at full strength: a (v)xn group whose parameters become different is split into one item per
+   parameter, each with its own value and FIX (the former guard conjunct g_oxn is gone). *)
 Theorem omega_diag_update_readback :
   forall (V : Type) (F : fops V), fops_ok F ->
   forall (root : node) (ps : list (oparam V)),
